@@ -49,6 +49,10 @@ func vfC07GenCfg(rt *rapid.T) *vfxCfg {
 	// oversized backend body into a success
 	c.CacheSize = rapid.SampledFrom([]uint32{0, 2, 2, 1000, 1000}).Draw(rt, "route-cacheSize")
 	c.Compression = rapid.SampledFrom([]int{-1, -1, -1, 0, 10}).Draw(rt, "compression-minLength")
+	// a retry must not turn a streamed upload into an empty one
+	if a := rapid.SampledFrom([]int{0, 0, 2, 3}).Draw(rt, "retry-attempts"); a > 0 {
+		c.RetryAttempts, c.FailureCodes = a, []int{502, 503}
+	}
 	// a memoryCache must never hand out a response the current limits would withhold
 	if rapid.Bool().Draw(rt, "memoryCache") {
 		c.MemCache = &vfxMemCache{Expiration: "1h",
@@ -126,6 +130,8 @@ type vfC07Case struct {
 	Chunks   []int
 	Split    int
 	Status   int
+	Pre      []int  // request direction, within the limit: the first attempts fail (502/503, or 0 = connection dropped after the request was read)
+	CType    string // Content-Type of the backend's response ("" = whatever net/http sniffs)
 	UpdateAt int    // >= 1: the pipeline is hot-updated (new limits) before this repetition; 0 = no update
 	AcceptEn string // client Accept-Encoding ("" = none)
 	Reps     int    // the same request (same route-cache key) is sent this many times
@@ -155,6 +161,14 @@ func vfC07GenCase(rt *rapid.T, c *vfxCfg, thorough bool) (k vfC07Case, eff int64
 	}
 	k.Size = vfC07GenSize(rt, eff, k.Dir, thorough)
 	k.Reps = rapid.SampledFrom([]int{1, 2, 2, 3}).Draw(rt, "repetitions")
+	k.CType = rapid.SampledFrom([]string{"", "text/plain", "application/json", "application/octet-stream", "text/event-stream", "text/event-stream; charset=utf-8",
+		"Text/Event-Stream", "text/html", "application/grpc", "multipart/form-data; boundary=vfb"}).Draw(rt, "backend-content-type")
+	if k.Dir == "req" && c.RetryAttempts > 0 && k.Encoding != "lying" && (eff < 0 || int64(k.Size) <= eff) && rapid.Bool().Draw(rt, "failing-attempts") {
+		n := rapid.IntRange(1, c.RetryAttempts-1).Draw(rt, "nfailing")
+		for j := 0; j < n; j++ {
+			k.Pre = append(k.Pre, rapid.SampledFrom([]int{503, 502, 0}).Draw(rt, "failure-kind"))
+		}
+	}
 	updOdds := 9
 	if c.MemCache != nil && k.Dir == "resp" {
 		updOdds = 1
@@ -207,7 +221,10 @@ func TestVerifC07Limits(t *testing.T) {
 			if k.AcceptEn != "" {
 				q.Headers = append(q.Headers, [2]string{"Accept-Encoding", k.AcceptEn})
 			}
-			sc := &vfxScript{Status: k.Status, Framing: "cl", Headers: [][2]string{{"X-Vf-R", "1"}}}
+			sc := &vfxScript{Status: k.Status, Framing: "cl", Headers: [][2]string{{"X-Vf-R", "1"}}, Pre: k.Pre}
+			if k.CType != "" {
+				sc.Headers = append(sc.Headers, [2]string{"Content-Type", k.CType})
+			}
 			if k.Dir == "req" {
 				q.Body, q.Framing, q.Chunks = body, k.Encoding, k.Chunks
 				if k.Encoding == "lying" {
@@ -285,6 +302,8 @@ func vfC07Judge(rt *rapid.T, vf *vfCollector, rig *vfxRig, cfg *vfxCfg, k vfC07C
 		k.Dir + "-over": over, k.Dir + "-stream": eff < 0, k.Dir + "-inner-overrides-outer": !inherited && ((k.Dir == "req" && cfg.ServerClientMax != 0) || (k.Dir == "resp" && cfg.ProxyServerMax != 0)),
 		"candidate-pool": k.Pool != "", "size>4MiB": k.Size > vfC07Default, "repeated-route-key": rep > 0, "repeated-route-key-cache-on": rep > 0 && cfg.CacheSize > 0,
 		"repeated-over-limit-request-cache-on": rep > 0 && cfg.CacheSize > 0 && k.Dir == "req" && over, "repeated-stream-request-cache-on": rep > 0 && cfg.CacheSize > 0 && k.Dir == "req" && eff < 0,
+		"retry-policy": cfg.RetryAttempts > 0, "req-failing-attempts": len(k.Pre) > 0, "req-failing-attempts-stream-chunked": len(k.Pre) > 0 && eff < 0 && k.Encoding == "chunked" && k.Size > 0,
+		"resp-content-type=" + k.CType: k.Dir == "resp", "resp-event-stream-chunked-over-limit": k.Dir == "resp" && strings.HasPrefix(strings.ToLower(k.CType), "text/event-stream") && k.Encoding == "chunked" && over,
 		"memoryCache": cfg.MemCache != nil, "after-hot-update": k.UpdateAt > 0 && rep >= k.UpdateAt, "resp-memoryCache-repeated": cfg.MemCache != nil && k.Dir == "resp" && rep > 0,
 		"resp-memoryCache-hit(backend-not-contacted)": cfg.MemCache != nil && k.Dir == "resp" && rep > 0 && len(seen) == 0,
 		"resp-compressed": compressed, "resp-compressed-lying": compressed && k.Encoding == "lying", "resp-compressed-over": compressed && over} {
@@ -331,6 +350,27 @@ func vfC07Judge(rt *rapid.T, vf *vfCollector, rig *vfxRig, cfg *vfxCfg, k vfC07C
 			}
 			if len(seen) != 0 {
 				return fail("req-over-limit-reached-backend", "request body of %d bytes (%s) exceeds the effective clientMaxBodySize %d but the backend was contacted %d times", k.Size, k.Encoding, eff, len(seen))
+			}
+		case len(k.Pre) > 0:
+			// the first attempts failed after the backend had read the request. Every attempt that
+			// reached the backend must have carried the complete body; in particular the one that
+			// produced the final answer. A streamed upload cannot be re-sent: there the failure of
+			// the first attempt is an honest answer.
+			for j, s := range seen {
+				if s.BodyErr != nil || !bytes.Equal(s.Body, body) {
+					return fail("req-body-on-retry", "attempt %d of %d that reached the backend carried %s (read error %v), the client sent %s (%s)", j+1, len(seen), vfxBrief(s.Body), s.BodyErr, vfxBrief(body), k.Encoding)
+				}
+			}
+			if len(seen) == 0 {
+				return fail("req-within-limit-rejected", "request body of %d bytes (%s) within the limit %d never reached the backend, client got %d", k.Size, k.Encoding, eff, resp.Status)
+			}
+			switch {
+			case resp.Status == k.Status && len(seen) > len(k.Pre):
+				vf.Class("req-retried-to-success")
+			case eff < 0 && len(seen) == 1 && (resp.Status == 502 || resp.Status == 503):
+				vf.Class("req-stream-upload-not-retried")
+			default:
+				return fail("req-retry-outcome", "request body of %d bytes (%s), limit %d, scripted failing attempts %v with a %d-attempt retry policy: backend saw %d attempts, client got %d (final backend answer %d)", k.Size, k.Encoding, eff, k.Pre, cfg.RetryAttempts, len(seen), resp.Status, k.Status)
 			}
 		default:
 			if len(seen) == 0 || resp.Status != k.Status {
